@@ -135,7 +135,7 @@ Section Termination.
     destruct nd as [v|deps g|].
     - apply K. reflexivity.
     - destruct (get_settled st1 i) as [v|]; [apply K; reflexivity|].
-      pose proof (eval_deps_flags bound spec G (fun s d => wait_top bound spec G f s [] d) deps [] st1
+      pose proof (eval_deps_flags (fun s d => wait_top bound spec G f s [] d) deps [] st1
                     (fun s d => wait_top_flags bound spec G f s [] d)) as Hd.
       assert (NF : eval_deps (fun s d => wait_top bound spec G f s [] d) deps [] st1 <> DFuel).
       { apply eval_deps_nofuel.
@@ -291,3 +291,356 @@ Section Meaning.
     - simpl. exact S.
   Qed.
 End Meaning.
+
+(* ------------------------------------------------------------------ what a DeferredCycle means *)
+Section Cycle.
+  Variable G : graph.
+
+  (* node i can yield the deferred object j / node i waits for j *)
+  Definition fedge (i j : nat) : Prop :=
+    match nth_error G i with
+    | Some (NConst (NFwd k)) => k = j
+    | Some (NFn deps g) => exists vals, g vals = NFwd j
+    | _ => False
+    end.
+  Definition dedge (i j : nat) : Prop :=
+    match nth_error G i with
+    | Some (NFn deps g) => In j deps
+    | _ => False
+    end.
+  Definition edge (i j : nat) : Prop := fedge i j \/ dedge i j.
+
+  Inductive reach : nat -> nat -> Prop :=
+  | reach1 i j : edge i j -> reach i j
+  | reachS i k j : reach i k -> edge k j -> reach i j.
+
+  Lemma reach_edge_l i k j : edge i k -> reach k j -> reach i j.
+  Proof.
+    intros E R. induction R as [a b E'|a c b R IH E'].
+    - eapply reachS; [apply reach1; exact E|exact E'].
+    - eapply reachS; [apply IH; exact E|exact E'].
+  Qed.
+
+  Lemma reach_trans i k j : reach i k -> reach k j -> reach i j.
+  Proof.
+    intros R1 R2. induction R2 as [a b E|a c b R IH E].
+    - eapply reachS; [exact R1|exact E].
+    - eapply reachS; [apply IH; exact R1|exact E].
+  Qed.
+
+  (* seen = [s_n; ...; s_1] where s_1 yields s_2 ... s_n yields i *)
+  Fixpoint fchain_to (seen : list nat) (i : nat) : Prop :=
+    match seen with
+    | [] => True
+    | s :: rest => fedge s i /\ fchain_to rest s
+    end.
+
+  Definition reaches_cycle (i : nat) : Prop := exists c, (c = i \/ reach i c) /\ reach c c.
+  Definition long_forward (n : nat) : Prop := exists seen i, n <= length seen /\ fchain_to seen i.
+
+  Variables (bound : nat) (spec : bool).
+
+  Definition cyc_inv (st : state) (seen : list nat) (i : nat) : Prop :=
+    settled_sound G st /\
+    (forall k, is_await st k = true -> reach k i) /\
+    (forall k, In k seen -> reach k i) /\
+    fchain_to seen i.
+
+  Definition cyc_res (i : nat) (r : res) : Prop :=
+    match r with
+    | RRaise ECycle _ => reaches_cycle i \/ long_forward bound
+    | _ => True
+    end.
+
+  Lemma reaches_cycle_step i j : edge i j -> reaches_cycle j -> reaches_cycle i.
+  Proof.
+    intros E [c [[Ec|Rc] Cc]]; exists c; split; auto; right.
+    - subst. apply reach1. exact E.
+    - eapply reach_edge_l; eauto.
+  Qed.
+
+  (* a raise out of the dependency loop is a raise of one dependency, called on a state with the same flags and
+     a sound settled table *)
+  Lemma eval_deps_raise rec deps : forall acc st e st',
+    (forall s d, keeps_flags s (rec s d)) ->
+    (forall s d, settled_sound G s -> sound_res G d (rec s d)) ->
+    settled_sound G st ->
+    eval_deps rec deps acc st = DRaise e st' ->
+    exists d s, In d deps /\ awaiting s = awaiting st /\ settled_sound G s /\ rec s d = RRaise e st'.
+  Proof.
+    induction deps as [|d ds IH]; intros acc st e st' K S Ss H; simpl in H; [discriminate|].
+    pose proof (K st d) as Kd. pose proof (S st d Ss) as Sd.
+    destruct (rec st d) as [z s1|e1 s1|] eqn:Er; simpl in Kd, Sd; try discriminate.
+    - destruct Sd as [_ Ss1].
+      destruct (IH (z :: acc) s1 e st' K S Ss1 H) as (d' & s & I1 & I2 & I3 & I4).
+      exists d', s. repeat split; auto; [right; exact I1 | congruence].
+    - inversion H; subst. exists d, st. repeat split; auto. left; reflexivity.
+  Qed.
+
+  Lemma wait_top_cycle : forall fuel st seen i,
+    cyc_inv st seen i -> cyc_res i (wait_top bound spec G fuel st seen i).
+  Proof.
+    induction fuel as [|f IH]; intros st seen i (Ss & Ia & Is & If); simpl; auto.
+    destruct (nth_error G i) as [nd|] eqn:En; simpl; auto.
+    destruct ((bound <=? length seen) || existsb (Nat.eqb i) seen) eqn:Es; simpl.
+    { apply orb_true_iff in Es. destruct Es as [Es|Es].
+      - right. exists seen, i. split; [apply Nat.leb_le; exact Es|exact If].
+      - left. apply existsb_exists in Es. destruct Es as [k [Hk Ek]]. apply Nat.eqb_eq in Ek. subst k.
+        exists i. split; auto. }
+    destruct (is_await st i) eqn:Ea; simpl.
+    { left. exists i. split; auto. }
+    (* continuing with a yielded object j *)
+    assert (K : forall v s, awaiting s = awaiting (set_await st i true) -> settled_sound G s ->
+              (forall j, v = NFwd j -> fedge i j) ->
+              cyc_res i match v with
+                        | NVal z => RVal z (set_await s i false)
+                        | NFwd j => wait_top bound spec G f (set_await s i false) (i :: seen) j end).
+    { intros [z|j] s E Sss Hf; simpl; auto.
+      assert (Ef : fedge i j) by (apply Hf; reflexivity).
+      assert (Ee : edge i j) by (left; exact Ef).
+      assert (Aw : awaiting (set_await s i false) = awaiting st).
+      { unfold set_await in *; simpl in *. rewrite E. apply set_nth_restore. exact Ea. }
+      pose proof (IH (set_await s i false) (i :: seen) j) as R.
+      destruct (wait_top bound spec G f (set_await s i false) (i :: seen) j) as [z s'|[| |] s'|]; simpl in R |- *; auto.
+      destruct R as [R|R]; auto.
+      - split; [exact Sss|]. split; [|split].
+        + intros k Hk. unfold is_await in Hk. rewrite Aw in Hk. eapply reachS; [apply Ia; exact Hk|exact Ee].
+        + intros k [Hk|Hk]; [subst; apply reach1; exact Ee | eapply reachS; [apply Is; exact Hk|exact Ee]].
+        + simpl. split; [exact Ef|exact If].
+      - left. eapply reaches_cycle_step; eauto. }
+    destruct nd as [v|deps g|].
+    - apply K; auto. intros j E. subst. unfold fedge. rewrite En. reflexivity.
+    - destruct (get_settled (set_await st i true) i) as [v|] eqn:Eg.
+      + apply K; auto. intros j E. subst.
+        destruct (Ss i (NFwd j) Eg) as (deps' & g' & vals & E1 & E2 & E3).
+        unfold fedge. rewrite En. assert (g' = g) by congruence. subst. eauto.
+      + pose proof (eval_deps_flags (fun s d => wait_top bound spec G f s [] d) deps [] (set_await st i true)
+                      (fun s d => wait_top_flags bound spec G f s [] d)) as Hd.
+        pose proof (eval_deps_sound G (fun s d => wait_top bound spec G f s [] d) deps [] [] (set_await st i true)
+                      (fun s d Sx => wait_top_sound G bound spec f s [] d Sx) Ss (VNil G)) as Hs.
+        destruct (eval_deps _ deps [] (set_await st i true)) as [vals s2|e s2|] eqn:Ed; simpl; auto.
+        * destruct Hs as [Hv Hs2]. apply K; auto.
+          -- intros k v Hk. unfold get_settled, set_settled in Hk. simpl in Hk.
+             destruct (nth_set_nth_cases (settled s2) i k (Some (g vals)) None) as [[E1 E2]|E2]; rewrite E2 in Hk.
+             ++ inversion Hk; subst. exists deps, g, vals. auto.
+             ++ apply Hs2. exact Hk.
+          -- intros j E. unfold fedge. rewrite En. eauto.
+        * destruct e; auto.
+          destruct (eval_deps_raise _ deps [] (set_await st i true) ECycle s2
+                      (fun s d => wait_top_flags bound spec G f s [] d)
+                      (fun s d Sx => wait_top_sound G bound spec f s [] d Sx) Ss Ed) as (d & s & Hin & Haw & Hss & Hr).
+          assert (Ee : edge i d) by (right; unfold dedge; rewrite En; exact Hin).
+          pose proof (IH s [] d) as R. rewrite Hr in R. simpl in R.
+          destruct R as [R|R]; auto.
+          -- split; [exact Hss|]. split; [|split; [intros k []|exact I]].
+             intros k Hk. unfold is_await in Hk. rewrite Haw in Hk. simpl in Hk.
+             destruct (Nat.eq_dec k i) as [->|Nk]; [apply reach1; exact Ee|].
+             rewrite nth_set_nth_neq in Hk by exact Nk.
+             eapply reachS; [apply Ia; exact Hk|exact Ee].
+          -- left. eapply reaches_cycle_step; eauto.
+    - destruct spec; simpl; auto.
+  Qed.
+
+  (* from a clean start: no flag set, nothing seen *)
+  Theorem cycle_sound fuel i st' :
+    wait bound spec G fuel (init_state G) i = RRaise ECycle st' ->
+    reaches_cycle i \/ long_forward bound.
+  Proof.
+    intros H. pose proof (wait_top_cycle fuel (init_state G) [] i) as R.
+    unfold wait in H. rewrite H in R. apply R.
+    split; [apply settled_sound_init|]. split; [|split; [intros k []|exact I]].
+    intros k Hk. exfalso. unfold is_await, init_state in Hk. simpl in Hk.
+    revert k Hk. generalize G as l. induction l as [|x xs IHl]; intros [|k] Hk; simpl in Hk; try discriminate. eauto.
+  Qed.
+End Cycle.
+
+(* ------------------------------------------------------------------ acyclic graphs get a value *)
+Section Acyclic.
+  Variables (G : graph) (bound : nat) (spec : bool).
+
+  (* every reference stays inside the graph and every Promise has been settled *)
+  Definition closed : Prop :=
+    forall i nd, nth_error G i = Some nd ->
+      match nd with
+      | NUnsettled => False
+      | NConst (NFwd j) => j < length G
+      | NConst (NVal _) => True
+      | NFn deps g => (forall d, In d deps -> d < length G) /\ (forall vals j, g vals = NFwd j -> j < length G)
+      end.
+
+  (* rank: a strict order witnessing that there is no cycle; flen: an upper bound of the length of the chain of
+     yielded objects starting at a node, which must stay below the `seen` bound of wait() *)
+  Definition ranked (rank flen : nat -> nat) : Prop :=
+    (forall i j, edge G i j -> rank j < rank i) /\
+    (forall i j, fedge G i j -> flen j < flen i) /\
+    (forall i, flen i < bound).
+
+  Variables rank flen : nat -> nat.
+  Hypothesis Hclosed : closed.
+  Hypothesis Hranked : ranked rank flen.
+
+  Definition acy_inv (st : state) (seen : list nat) (i : nat) : Prop :=
+    settled_sound G st /\ i < length G /\
+    (forall k, is_await st k = true -> rank i < rank k) /\
+    (forall k, In k seen -> rank i < rank k) /\
+    length seen + flen i < bound.
+
+  Definition no_raise (r : res) : Prop := match r with RRaise _ _ => False | _ => True end.
+
+  Lemma eval_deps_noraise rec deps : forall acc st,
+    (forall s d, keeps_flags s (rec s d)) ->
+    (forall s d, settled_sound G s -> sound_res G d (rec s d)) ->
+    (forall s d, In d deps -> awaiting s = awaiting st -> settled_sound G s -> no_raise (rec s d)) ->
+    settled_sound G st ->
+    match eval_deps rec deps acc st with DRaise _ _ => False | _ => True end.
+  Proof.
+    induction deps as [|d ds IH]; intros acc st K S N Ss; simpl; auto.
+    pose proof (K st d) as Kd. pose proof (S st d Ss) as Sd.
+    pose proof (N st d (or_introl eq_refl) eq_refl Ss) as Nd.
+    destruct (rec st d) as [z s1|e s1|]; simpl in *; auto.
+    destruct Sd as [_ Ss1]. apply IH; auto.
+    intros s d' I1 I2 I3. apply N; auto. congruence.
+  Qed.
+
+  Lemma wait_top_noraise : forall fuel st seen i,
+    acy_inv st seen i -> no_raise (wait_top bound spec G fuel st seen i).
+  Proof.
+    destruct Hranked as (Hr & Hf & Hb).
+    induction fuel as [|f IH]; intros st seen i (Ss & Li & Ia & Is & Il); simpl; auto.
+    destruct (nth_error G i) as [nd|] eqn:En; [|apply nth_error_None in En; lia].
+    destruct ((bound <=? length seen) || existsb (Nat.eqb i) seen) eqn:Es; simpl.
+    { apply orb_true_iff in Es. destruct Es as [Es|Es].
+      - apply Nat.leb_le in Es. lia.
+      - apply existsb_exists in Es. destruct Es as [k [Hk Ek]]. apply Nat.eqb_eq in Ek. subst k.
+        specialize (Is i Hk). lia. }
+    destruct (is_await st i) eqn:Ea; simpl.
+    { specialize (Ia i Ea). lia. }
+    assert (K : forall v s, awaiting s = awaiting (set_await st i true) -> settled_sound G s ->
+              (forall j, v = NFwd j -> fedge G i j) ->
+              no_raise match v with
+                       | NVal z => RVal z (set_await s i false)
+                       | NFwd j => wait_top bound spec G f (set_await s i false) (i :: seen) j end).
+    { intros [z|j] s E Sss Hfe; simpl; auto.
+      assert (Ef : fedge G i j) by (apply Hfe; reflexivity).
+      assert (Ee : edge G i j) by (left; exact Ef).
+      assert (Aw : awaiting (set_await s i false) = awaiting st).
+      { unfold set_await in *; simpl in *. rewrite E. apply set_nth_restore. exact Ea. }
+      apply IH. split; [exact Sss|]. split; [|split; [|split]].
+      - pose proof (Hclosed i nd En) as C. unfold fedge in Ef. rewrite En in Ef.
+        destruct nd as [[z|k]|deps g|]; try contradiction.
+        + subst. exact C.
+        + destruct Ef as [vals Ev]. destruct C as [_ C]. eapply C; eauto.
+      - intros k Hk. unfold is_await in Hk. rewrite Aw in Hk. specialize (Ia k Hk). specialize (Hr i j Ee). lia.
+      - intros k [Hk|Hk]; [subst; apply Hr; exact Ee | specialize (Is k Hk); specialize (Hr i j Ee); lia].
+      - simpl. specialize (Hf i j Ef). lia. }
+    destruct nd as [v|deps g|].
+    - apply K; auto. intros j E. subst. unfold fedge. rewrite En. reflexivity.
+    - destruct (get_settled (set_await st i true) i) as [v|] eqn:Eg.
+      + apply K; auto. intros j E. subst.
+        destruct (Ss i (NFwd j) Eg) as (deps' & g' & vals & E1 & E2 & E3).
+        unfold fedge. rewrite En. assert (g' = g) by congruence. subst. eauto.
+      + pose proof (eval_deps_flags (fun s d => wait_top bound spec G f s [] d) deps [] (set_await st i true)
+                      (fun s d => wait_top_flags bound spec G f s [] d)) as Hd.
+        pose proof (eval_deps_sound G (fun s d => wait_top bound spec G f s [] d) deps [] [] (set_await st i true)
+                      (fun s d Sx => wait_top_sound G bound spec f s [] d Sx) Ss (VNil G)) as Hs.
+        pose proof (eval_deps_noraise (fun s d => wait_top bound spec G f s [] d) deps [] (set_await st i true)
+                      (fun s d => wait_top_flags bound spec G f s [] d)
+                      (fun s d Sx => wait_top_sound G bound spec f s [] d Sx)) as Hn.
+        destruct (eval_deps _ deps [] (set_await st i true)) as [vals s2|e s2|] eqn:Ed; simpl; auto.
+        * destruct Hs as [Hv Hs2]. apply K; auto.
+          -- intros k v Hk. unfold get_settled, set_settled in Hk. simpl in Hk.
+             destruct (nth_set_nth_cases (settled s2) i k (Some (g vals)) None) as [[E1 E2]|E2]; rewrite E2 in Hk.
+             ++ inversion Hk; subst. exists deps, g, vals. auto.
+             ++ apply Hs2. exact Hk.
+          -- intros j E. unfold fedge. rewrite En. eauto.
+        * apply Hn; [|exact Ss].
+          intros s d Hin Haw Hss. apply IH.
+          assert (Ee : edge G i d) by (right; unfold dedge; rewrite En; exact Hin).
+          split; [exact Hss|]. split; [|split; [|split]].
+          -- pose proof (Hclosed i _ En) as [C _]. apply C. exact Hin.
+          -- intros k Hk. unfold is_await in Hk. rewrite Haw in Hk. simpl in Hk.
+             specialize (Hr i d Ee).
+             destruct (Nat.eq_dec k i) as [->|Nk]; [exact Hr|].
+             rewrite nth_set_nth_neq in Hk by exact Nk. specialize (Ia k Hk). lia.
+          -- intros k [].
+          -- simpl. apply Hb.
+    - exfalso. exact (Hclosed i _ En).
+  Qed.
+
+  Theorem acyclic_value fuel i :
+    i < length G -> fuel >= fuel_bound bound G ->
+    exists z st', wait bound spec G fuel (init_state G) i = RVal z st' /\ value_of G i z /\
+                  awaiting st' = awaiting (init_state G).
+  Proof.
+    intros Li F.
+    assert (Inv : acy_inv (init_state G) [] i).
+    { destruct Hranked as (Hr & Hf & Hb).
+      split; [apply settled_sound_init|]. split; [exact Li|]. split; [|split; [intros k []|simpl; apply Hb]].
+      intros k Hk. exfalso. unfold is_await, init_state in Hk. simpl in Hk.
+      revert k Hk. generalize G as l. induction l as [|x xs IHl]; intros [|k] Hk; simpl in Hk; try discriminate. eauto. }
+    pose proof (wait_top_noraise fuel (init_state G) [] i Inv) as N.
+    pose proof (wait_terminates_lemma bound spec G fuel (init_state G) i) as T.
+    pose proof (wait_top_sound G bound spec fuel (init_state G) [] i (settled_sound_init G)) as S.
+    pose proof (wait_top_flags bound spec G fuel (init_state G) [] i) as Fl.
+    unfold wait in *.
+    destruct (wait_top bound spec G fuel (init_state G) [] i) as [z s'|e s'|]; simpl in *.
+    - exists z, s'. destruct S as [S1 S2]. auto.
+    - contradiction.
+    - exfalso. apply T; auto. unfold init_state; simpl. rewrite !map_length. reflexivity.
+  Qed.
+End Acyclic.
+
+(* ------------------------------------------------------------------ try_compute *)
+Lemma try_wait_flags bound G fuel st i :
+  match try_wait bound G fuel st i with
+  | TVal _ st' | TSwallowed st' | TCrash st' => awaiting st' = awaiting st
+  | TFuel => True
+  end.
+Proof.
+  unfold try_wait, wait. pose proof (wait_top_flags bound true G fuel st [] i) as H.
+  destruct (wait_top bound true G fuel st [] i) as [z s|[| |] s|]; simpl in *; auto.
+Qed.
+
+(* while speculating, an unsettled Promise never produces the fatal Exception: only a dangling reference could *)
+Lemma spec_no_crash_closed bound G : forall fuel st seen i st',
+  (forall k nd, nth_error G k = Some nd ->
+     match nd with NConst (NFwd j) => j < length G
+                 | NFn deps g => (forall d, In d deps -> d < length G) /\ (forall vals j, g vals = NFwd j -> j < length G)
+                 | _ => True end) ->
+  settled_sound G st -> i < length G ->
+  wait_top bound true G fuel st seen i <> RRaise ECrash st'.
+Proof.
+  intros fuel st seen i st' C. revert st seen i st'.
+  induction fuel as [|f IH]; intros st seen i st' Ss Li; simpl; [discriminate|].
+  destruct (nth_error G i) as [nd|] eqn:En; [|apply nth_error_None in En; lia].
+  destruct ((bound <=? length seen) || existsb (Nat.eqb i) seen); [discriminate|].
+  destruct (is_await st i); [discriminate|].
+  assert (K : forall v s, settled_sound G s -> (forall j, v = NFwd j -> j < length G) ->
+            match v with
+            | NVal z => RVal z (set_await s i false)
+            | NFwd j => wait_top bound true G f (set_await s i false) (i :: seen) j end <> RRaise ECrash st').
+  { intros [z|j] s Sss Hj; [discriminate|]. apply IH; auto. }
+  pose proof (C i nd En) as Ci.
+  destruct nd as [v|deps g|].
+  - apply K; auto. intros j E; subst. exact Ci.
+  - destruct (get_settled (set_await st i true) i) as [v|] eqn:Eg.
+    + apply K; auto. intros j E; subst.
+      destruct (Ss i (NFwd j) Eg) as (deps' & g' & vals & E1 & E2 & E3).
+      assert (g' = g) by congruence. subst. destruct Ci as [_ Ci]. eapply Ci; eauto.
+    + pose proof (eval_deps_sound G (fun s d => wait_top bound true G f s [] d) deps [] [] (set_await st i true)
+                    (fun s d Sx => wait_top_sound G bound true f s [] d Sx) Ss (VNil G)) as Hs.
+      destruct (eval_deps _ deps [] (set_await st i true)) as [vals s2|e s2|] eqn:Ed.
+      * destruct Hs as [Hv Hs2]. apply K.
+        -- intros k v Hk. unfold get_settled, set_settled in Hk. simpl in Hk.
+           destruct (nth_set_nth_cases (settled s2) i k (Some (g vals)) None) as [[E1 E2]|E2]; rewrite E2 in Hk.
+           ++ inversion Hk; subst. exists deps, g, vals. auto.
+           ++ apply Hs2. exact Hk.
+        -- intros j E. destruct Ci as [_ Ci]. eapply Ci; eauto.
+      * destruct e; try discriminate.
+        destruct (eval_deps_raise G _ deps [] (set_await st i true) ECrash s2
+                    (fun s d => wait_top_flags bound true G f s [] d)
+                    (fun s d Sx => wait_top_sound G bound true f s [] d Sx) Ss Ed) as (d & s & Hin & Haw & Hss & Hr).
+        exfalso. eapply IH; [exact Hss| |exact Hr]. destruct Ci as [Ci _]. apply Ci. exact Hin.
+      * discriminate.
+  - discriminate.
+Qed.
